@@ -14,14 +14,22 @@ Translated (anything in their bodies that is not supported is a *translation pro
     python raises TypeError before the handler is reached), Span.__len__,
     SpanI.starts_before/after/at/inside, ends_before/after/at/inside (span and number argument),
     _LostSpan.__init__, __len__, reversed, __getitem__, __mul__, __truediv__, remap_with, reversed_relative_to,
-    FeatureMap.__mul__, __truediv__, __add__, without_gaps, get_coordinates
+    FeatureMap.__mul__, __truediv__, __add__, without_gaps, get_coordinates,
+    (wave 2, loops) coords_minus_coords, coords_intersect, FeatureMap.__post_init__, gaps, nongap, inverse, start, end,
+    absolute_position, relative_position
 
 It is a small statement compiler over a typed environment: ``if/elif/else`` (the rest of the function is duplicated into
 the arms that do not leave), ``x is None`` tests narrow an optional to an int (``match``), simple / tuple / augmented
 assignment (``let``, simultaneous for tuples), ``assert``, ``raise``, ``return``; integer arithmetic (``//`` = ``Int.fdiv``,
 ``%`` = ``Int.fmod``), chained comparisons, ``and/or/not`` (python truthiness of ints and optionals), conditional
 expressions, ``min/max/abs``, ``x in span``, list comprehensions over the spans of a map (with a filter), ``list + list``.
-``for`` / ``while`` loops are not supported (the loops of location.py are tied by the hand model + correspondence).
+``for pat in xs: body`` is a function defined by STRUCTURAL RECURSION over the list (``<fn>_loop<k>``): its state is the
+variables the body assigns that exist before the loop (accumulator parameters), the other variables the body reads are
+parameters, the end of the body and ``continue`` recurse on the tail, ``break`` returns the state, ``raise`` is the error;
+``return`` inside a loop, a loop without state, a body variable read after the loop are translation problems.  Lists:
+``[]`` (element kind read off the ``.append`` calls), ``xs.append(v)``, ``xs.sort()`` of int 4-tuples, ``x, y = f(..)`` /
+``r = f(..)`` for the pair-or-(None, None) of ``span_and_span`` with ``x is None`` / ``r[0] is None`` narrowing.
+``while`` loops, ``Span.remap_with``, ``covered`` are not translated (hand model + correspondence).
 
 Conventions (also in the generated header):
   S1 ``try: A  except AttributeError: B`` in the comparison helpers is dispatch on the type of ``other``: ``A`` is translated
@@ -35,7 +43,14 @@ Conventions (also in the generated header):
      methods dispatch on the constructor; ``.start`` / ``.end`` of a lost span read 0 (python: AttributeError; every
      translated use is guarded by ``.lost``);
   S5 ``ZeroDivisionError`` is not modelled (``x // 0 = 0``, ``x % 0 = x`` as in Lean);
-  S6 ``from_locations`` is the hand model ``FMap.fromLocations`` (translated and proved equal to it by C04's package).
+  S6 ``from_locations`` / ``_spans_from_locations`` are the hand models ``FMap.fromLocations`` / ``FMap.spansFromLocations``
+     (translated and proved equal to them by C04's package);
+  S7 a numpy array of pairs is the list of pairs (``numpy.array(xs, dtype=..)`` = ``xs``), dtype bookkeeping is dropped;
+  S8 ``min(x, y)`` / ``max(x, y)`` with ``x`` None read None (python: TypeError); in ``__post_init__`` this is guarded by
+     ``useful``; ``isinstance(spans, property)`` (dataclass artefact) is false;
+  S9 positions given to ``absolute_position`` / ``relative_position`` are python ints (``isinstance(p, int)`` is true and
+     ``numpy.array([p]).min()`` is ``p``); the array form is not translated;
+  S10 ``list.sort()`` of 4-tuples of ints is the lexicographic insertion sort ``FMap.insertQ``.
 """
 from __future__ import annotations
 
@@ -1150,7 +1165,11 @@ HEADER = '''/-
   Conventions: S1 try/except AttributeError = dispatch on the type of `other` (`…Span` / `…Int`); S2 tidy flags, `value`
   and serialisation bookkeeping are not modelled; S3 `isinstance(start, Span)` is false; S4 an object is its fields, a
   stored span of unknown class is `FMap.FSp` and its methods dispatch on the constructor, `.start`/`.end` of a lost span
-  read 0; S5 ZeroDivisionError is not modelled; S6 `from_locations` is `FMap.fromLocations`.
+  read 0; S5 ZeroDivisionError is not modelled; S6 `from_locations` / `_spans_from_locations` are `FMap.fromLocations` /
+  `FMap.spansFromLocations`; S7 a numpy array of pairs is the list, dtype dropped; S8 `min/max(None, y)` read None,
+  `isinstance(spans, property)` is false; S9 positions are python ints; S10 `list.sort()` of int 4-tuples = `FMap.insertQ`
+  insertion sort.  A `for` loop is a function `<fn>_loop<k>` by structural recursion over the list: accumulator = the
+  variables the body assigns that exist before the loop; end of body / `continue` recurse, `break` returns the state.
 -/
 import CogentModel.Model.FMap
 set_option linter.unusedVariables false
